@@ -835,7 +835,7 @@ class PPG3204():
         if isinstance(skew, Number):
             skew = np.tile([skew], CHs.size)
         else:
-            skew = np.array(skew)
+            skew = np.array(skew, dtype=float) # the limits (ps) cannot be compared or printed in a narrower float type
 
         if (skew < self.MIN_SKEW).any() or (skew > self.MAX_SKEW).any():
             skew = skew.clip(self.MIN_SKEW, self.MAX_SKEW)
